@@ -636,7 +636,8 @@ func vC08Emit(sink *vSink, sinkName string, r *vRand, c *vC08Case, cls, tamper, 
 		"unlimited_size": st, "unlimited_gas": gt})
 }
 
-// the two F14 witnesses of Proofs/ExecReportP.v (module F14), replayed on the real builder
+// the two F14 inputs of Proofs/ExecReportP.v (module F14), replayed on the real builder: the too-costly one
+// (repaired by F14a: only nonce 1 may be reported) and the size-fallback one (still recorded)
 func vC08Witness(costly bool) *vC08Case {
 	snd := make([]byte, 20)
 	snd[19] = 77
@@ -676,7 +677,7 @@ func TestVerif_C08_add(t *testing.T) {
 	// corpus first
 	first := 0
 	if part == 0 {
-		vC08Emit(sink, sinkName, r, vC08Witness(true), "F14-witness-costly", "", "fixed", "fixed", &[2]uint64{1000, 1000})
+		vC08Emit(sink, sinkName, r, vC08Witness(true), "F14a-costly-repaired", "", "fixed", "fixed", &[2]uint64{1000, 1000})
 		vC08Emit(sink, sinkName, r, vC08Witness(false), "F14-witness-fallback", "", "fixed", "fixed", &[2]uint64{200, 1000})
 		first = 2
 	}
